@@ -195,7 +195,13 @@ def eval_case(case):
                             pass
                         return
 
-            dest.cond(["restore", keep], timeout=120, poll=killer)
+            if case["seed"] % 2:
+                dest.cond(["restore", keep], timeout=120, poll=killer)
+            else:
+                # the same, at an exact point: dies when it is about to place its 2nd (3rd, ...) version directory
+                rk = dest.cond(["restore", keep], timeout=120, crash_on_audit={"events": ["shutil.copytree", "shutil.move", "os.rename"], "nth": 2 + (case["seed"] // 2) % 3})
+                if rk.code == 137:
+                    out["reach"]["c11_restore_killed_between_version_directories"] = 1
             out["reach"]["c11_killed_restore_first"] = 1
             r_retry = dest.cond(["restore", keep], timeout=120)
             if r_retry.code != 0:
